@@ -601,7 +601,15 @@ func cmdReplay(args []string) int {
 				out, _ := exec.Command("/bin/sh", filepath.Join(d, "run.sh")).CombinedOutput()
 				fmt.Println(string(out))
 				ob, _ := os.ReadFile(filepath.Join(d, "observed.json"))
+				if len(ob) > 4000 {
+					ob = append(ob[:4000], []byte(" ...")...)
+				}
 				fmt.Println("observed:", string(ob))
+				fs, _ := filepath.Glob(filepath.Join(d, "falsified_*.smt2"))
+				for _, f := range fs {
+					out, _ := exec.Command("z3-new", "-T:30", f).CombinedOutput()
+					fmt.Printf("postcondition together with the recorded observation (%s): %s  (unsat = the observed outcome violates it)\n", filepath.Base(f), strings.TrimSpace(strings.SplitN(string(out), "\n", 2)[0]))
+				}
 			}
 		}
 	}
